@@ -49,7 +49,7 @@ func c13Msg(s *EnumSpec, v []int) *WMsg {
 	if first != "" {
 		entries = append(entries, first)
 	}
-	for _, f := range []string{"e1", "e2", "e3"} {
+	for _, f := range []string{"e1", "e2", "e3", "e4"} {
 		if x := s.Val(v, f); x != "absent" {
 			entries = append(entries, c13Entries[x])
 		}
@@ -154,25 +154,30 @@ func init() {
 			{Name: "e1", Vals: ent},
 			{Name: "e2", Vals: ent},
 			{Name: "e3", Vals: ent, Quick: 3},
-			{Name: "layout", Vals: []string{"one-line", "m1", "m2", "m3", "m4", "m5", "m6", "m7"}},
+			{Name: "e4", Vals: []string{"absent", "bare", "hdrpars", "uripars"}, Quick: 1},
+			{Name: "layout", Vals: []string{"one-line", "m1", "m2", "m3", "m4", "m5", "m6", "m7", "m8", "m9", "m10", "m11", "m12", "m13", "m14", "m15"}, Quick: 8},
 			{Name: "sep", Vals: []string{"comma", "comma-blank"}},
 			{Name: "keep", Vals: []string{"off", "on"}},
 			{Name: "arrival", Vals: []string{"udp", "tcp"}},
 		},
 		Eval: c13Eval,
-		Seqs: [][]string{{"e1", "e2", "e3"}},
+		Seqs: [][]string{{"e1", "e2", "e3", "e4"}},
 	}
 	s := c13Spec
 	s.Valid = func(v []int) bool {
-		e1, e2, e3 := v[s.idx("e1")], v[s.idx("e2")], v[s.idx("e3")]
-		if (e1 == 0 && (e2 != 0 || e3 != 0)) || (e2 == 0 && e3 != 0) {
+		e1, e2, e3, e4 := v[s.idx("e1")], v[s.idx("e2")], v[s.idx("e3")], v[s.idx("e4")]
+		if (e1 == 0 && (e2 != 0 || e3 != 0)) || (e2 == 0 && e3 != 0) || (e3 == 0 && e4 != 0) {
+			return false
+		}
+		// the fourth further entry is crossed with a reduced alphabet of the others
+		if e4 != 0 && (e1 > 3 || e2 > 3 || e3 > 3) {
 			return false
 		}
 		n := 0
 		if v[s.idx("first")] != 0 {
 			n++
 		}
-		for _, e := range []int{e1, e2, e3} {
+		for _, e := range []int{e1, e2, e3, e4} {
 			if e != 0 {
 				n++
 			}
@@ -190,7 +195,7 @@ func init() {
 		return true
 	}
 	addCheck(&Check{ID: "C13", Level: "exploration",
-		Rule:   "complete product: first Route entry (14 shapes: own by address/alias/with and without port, near misses, other listeners, decorated own entries) x remaining list of 0-3 entries over a 7-entry alphabet (display names, URI parameters valued/valueless/lr in any position, header parameters, %-escapes) x every layout (all compositions into header lines, with/without blank after commas) x keep-next-hop x arrival transport; the emitted Route list is decoded by the independent reader and compared component-wise with the reference; non-trivial = request carries a Route",
+		Rule:   "complete product: first Route entry (14 shapes: own by address/alias/with and without port, near misses, other listeners, decorated own entries) x remaining list of 0-3 (thorough 0-4) entries over a 7-entry alphabet (display names, URI parameters valued/valueless/lr in any position, header parameters, %-escapes) x every layout (all compositions into header lines, with/without blank after commas) x keep-next-hop x arrival transport; the emitted Route list is decoded by the independent reader and compared component-wise with the reference; non-trivial = request carries a Route",
 		Assume: []string{"two services, three listeners, host table with aliases; only the first emission is compared (exactly-one is C03)"},
 		Run:    func(c *Ctx) { c13Spec.Run(c) },
 		Replay: func(c *Ctx, raw json.RawMessage) string { return c13Spec.Replay(raw) },
